@@ -109,7 +109,7 @@ func (fr *Frame) exec(st *State, pc Term, ins ssa.Instruction) bool {
 				}
 			}
 		}
-		fr.rets = append(fr.rets, retPoint{pc: pc, vals: vs, st: st, pos: ins.Pos()})
+		fr.rets = append(fr.rets, retPoint{pc: pc, vals: vs, st: st, pos: ins.Pos(), block: ins.Block().Index})
 		return false
 	case *ssa.Panic:
 		fr.safety("panic", ins.Pos(), pc, False, "explicit panic reachable")
@@ -480,7 +480,7 @@ func (fr *Frame) convert(st *State, pc Term, ins *ssa.Convert) Val {
 	case from == SString && e.p.U.IsSlice(to):
 		e.declareFun("bytes_of_string", []Sort{SString}, to)
 		r := App(to, "bytes_of_string", t)
-		e.assume(And(Eq(e.p.U.SLen(r), App(SInt, "str.len", t)), Eq(e.p.U.SOff(r), IntLit(0))))
+		e.assume(Eq(e.p.U.SLen(r), App(SInt, "str.len", t)))
 		return e.wrap(st, r, "fresh")
 	case e.p.U.IsSlice(from) && to == SString:
 		e.declareFun("string_of_bytes_"+string(from), []Sort{from}, SString)
@@ -608,7 +608,7 @@ func (e *Exec) asSort(t Term, s Sort) Term {
 	}
 	u := e.p.U
 	if u.IsSlice(t.Sort) && u.IsSlice(s) && u.DT(t.Sort).Elem == u.DT(s).Elem {
-		return u.MkSlice(s, u.SArr(t), u.SOff(t), u.SLen(t))
+		return u.MkSlice(s, u.SArr(t), u.SLen(t))
 	}
 	panic(fmt.Sprintf("asSort: %s -> %s", t.Sort, s))
 }
